@@ -73,6 +73,53 @@ func (c *ctx) cliCase(a, b Schema, desc string, devURL bool) {
 	}
 }
 
+// cliCaseSQL: the desired state is an SQL file (the harness' DDL: unnamed foreign keys stay unnamed), read by
+// Atlas through the dev database -- `--to file://schema.sql --dev-url sqlite://dev?mode=memory`
+func (c *ctx) cliCaseSQL(a, b Schema, desc string) {
+	id := c.id("c")
+	dir, err := os.MkdirTemp(c.dir, "clisql")
+	if err != nil {
+		panic(err)
+	}
+	defer os.RemoveAll(dir)
+	if err := os.WriteFile(filepath.Join(dir, "schema.sql"), []byte(strings.Join(rawSchema(b), ";\n")+";\n"), 0o644); err != nil {
+		panic(err)
+	}
+	dbPath := filepath.Join(dir, "live.db")
+	if err := clirun.Exec(dbPath, append([]string{"PRAGMA user_version = 1"}, rawSchema(a)...)...); err != nil {
+		c.w.Count("cli.setup-error")
+		c.w.ImplOnly(id, desc)
+		return
+	}
+	ic := "input-class=" + classifyFor(a, b, true) + "; "
+	dev := "sqlite://dev?mode=memory"
+	r := clirun.Run(dir, nil, "schema", "apply", "--auto-approve", "-u", "sqlite://"+dbPath, "--to", "file://schema.sql", "--dev-url", dev)
+	c.w.ImplOnly(id, desc)
+	c.w.Count("cli.kind=sqlfile")
+	if r.Exit != 0 {
+		c.w.Count("cli.apply-exit-nonzero")
+		if validSQLite(b) == nil {
+			c.w.Violation(id, "cli-apply-failed", ic+fmt.Sprintf("`atlas schema apply --auto-approve --to file://schema.sql --dev-url` exits %d on an empty database although the desired schema is valid SQLite: %s [%s]", r.Exit, lastLine(r.Stderr+r.Stdout), desc))
+		}
+		return
+	}
+	d := clirun.Run(dir, nil, "schema", "diff", "--from", "sqlite://"+dbPath, "--to", "file://schema.sql", "--dev-url", dev)
+	if d.Exit != 0 || !strings.Contains(d.Stdout, "Schemas are synced") {
+		c.w.Violation(id, "cli-not-synced", ic+fmt.Sprintf("after a successful `schema apply --auto-approve --to file://schema.sql` `schema diff` prints %q (exit %d) instead of \"Schemas are synced\" [%s]", trunc(strings.TrimSpace(d.Stdout+d.Stderr), 300), d.Exit, desc))
+		return
+	}
+	// a second apply must have nothing to do
+	r2 := clirun.Run(dir, nil, "schema", "apply", "--auto-approve", "-u", "sqlite://"+dbPath, "--to", "file://schema.sql", "--dev-url", dev)
+	if r2.Exit != 0 || !strings.Contains(r2.Stdout, "Schema is synced") {
+		c.w.Violation(id, "cli-second-apply", ic+fmt.Sprintf("the second `schema apply` is not a no-op: %q (exit %d) [%s]", trunc(strings.TrimSpace(r2.Stdout+r2.Stderr), 300), r2.Exit, desc))
+		return
+	}
+	c.w.Count("cli.synced")
+	if !strings.Contains(r.Stdout, "Schema is synced") {
+		c.w.NonTrivial(desc + "|" + fmt.Sprint(len(r.Stdout)))
+	}
+}
+
 func lastLine(s string) string {
 	l := strings.Split(strings.TrimSpace(s), "\n")
 	return trunc(l[len(l)-1], 300)
@@ -98,5 +145,15 @@ func runCLI(c *ctx) {
 	for i := 0; i < n; i++ {
 		a, b, d := c.g.pair()
 		c.cliCase(a, b, d, i%2 == 0)
+	}
+	// desired state from an SQL file: unnamed foreign keys reach the differ with SQLite's numeric symbols
+	step := 12
+	if c.thorough {
+		step = 1
+	}
+	for i, fc := range fkGrid(c.thorough) {
+		if i%step == 0 && !strings.HasSuffix(fc.desc, ":rename") {
+			c.cliCaseSQL(fc.a, fc.b, fc.desc)
+		}
 	}
 }
